@@ -76,7 +76,8 @@ type kase struct {
 	Note string `json:"note,omitempty"`
 	// family (g): the source is a complete program by construction; Alt is the same operand at the
 	// neutral site (parsed once). Only used to name the root cause of an accept-then-crash.
-	Alt     string `json:"alt,omitempty"`
+	Alt     string `json:"alt,omitempty"`      // same site, no speculation (`$x,` -> `7,`)
+	Alt0    string `json:"alt0,omitempty"`     // same operand alone: `echo E;`
 	AltKind string `json:"alt_kind,omitempty"` // what carries the operand body (names the finding when the operand itself is at fault)
 }
 
@@ -117,9 +118,9 @@ func check(src string, mode int, run bool) verdict { return checkAlt(src, mode, 
 // is run straight away; only if that does not end in output / a script-level error / exit is the
 // full verdict path (parse-only first, hang attribution, ...) taken.
 func checkAlt(src string, mode int, run bool, altKind string) verdict {
-	alt, kind := "", ""
-	if i := strings.IndexByte(altKind, 0); i >= 0 {
-		kind, alt = altKind[:i], altKind[i+1:]
+	alt, alt0, kind := "", "", ""
+	if p := strings.SplitN(altKind, "\x00", 3); len(p) == 3 {
+		kind, alt, alt0 = p[0], p[1], p[2]
 	}
 	n := len(src)
 	b := budget(n)
@@ -132,22 +133,26 @@ func checkAlt(src string, mode int, run bool, altKind string) verdict {
 			v := verdict{Outcome: "run:other-panic", Detail: r.PanicKey}
 			if nilClass.MatchString(strings.TrimPrefix(r.PanicKey, "panic:")) {
 				// Nothing is missing in the text, so the key names where the nil comes from, not which
-				// node meets it: (1) the same operand parsed once at the neutral site `echo E;` crashes
-				// too: the operand form itself is turned into nil (one key per carrier kind);
-				// (2) the neutral twin runs to completion: the only difference is that the operand
-				// was parsed again after a speculative pass; (3) anything else: the crashing frame.
+				// node meets it. Twin 1 is the same program with the leading `$x,` of the list replaced
+				// by a literal: same site, same operand, but the parser does not speculate, so the
+				// operand is parsed once. (1) twin 1 does not crash: the second parse of the operand
+				// is the cause; (2) the operand alone (`echo E;`) crashes too: the operand form itself
+				// becomes nil, one key per carrier kind; (3) anything else: the crashing frame.
 				v.Outcome = "run:nil-crash"
 				v.Clause = "accepted-is-complete"
 				v.Key = "accept-then-crash:complete-source@" + frameOf(r.PanicKey)
 				v.Detail = r.PanicMsg + " in " + frameOf(r.PanicKey)
-				a := runStrict(alt, mode, b+runFuel)
+				crashes := func(s string) bool {
+					a := runStrict(s, mode, b+runFuel)
+					return a.Kind == "panic" && !a.PanicInParse && nilClass.MatchString(a.PanicKey)
+				}
 				switch {
-				case a.Kind == "panic" && !a.PanicInParse && nilClass.MatchString(a.PanicKey):
+				case alt != src && !crashes(alt):
+					v.Key = "accept-then-crash:operand-parsed-again"
+					v.Detail += "; the same program with a literal instead of the leading `$x,` (no speculative parse of the list) does not crash"
+				case crashes(alt0):
 					v.Key = "accept-then-crash:complete-operand:" + kind
 					v.Detail += "; the operand alone (`echo E;`) crashes the same way"
-				case a.Kind == "ok":
-					v.Key = "accept-then-crash:operand-parsed-again"
-					v.Detail += "; the same operand at the neutral site `echo E;` runs clean"
 				}
 			}
 			return v
